@@ -297,6 +297,9 @@ Proof.
     + rewrite Hcut. cbn [andb]. split; cbn; [exact HI'|]. split; [lia|]. destruct children; [intros _; auto|discriminate].
 Qed.
 
+Lemma truthy_loop_ret m v : truthy (loop_ret m v) = truthy v.
+Proof. unfold loop_ret. destruct (is_loop1_name (m_name m)); [|reflexivity]. destruct (truthy v) eqn:E; [exact E|reflexivity]. Qed.
+
 Lemma run_body_post fuel m : meth_wf m = true -> forall st, Inv st ->
   post st (run_body K toks verbose use_cache M aeval exact_types token_dict rec fuel m st).
 Proof.
@@ -310,7 +313,7 @@ Proof.
      post st ((if m_loop m
                then match m_alts m with
                     | [a] => match rloop fuel m a (pos st0) start_tok [] [] st1 with
-                             | (Ok v, st2) => (Ok v, if m_without_invalid m then with_invalid st2 false else st2)
+                             | (Ok v, st2) => (Ok (loop_ret m v), if m_without_invalid m then with_invalid st2 false else st2)
                              | other => other end
                     | _ => (Raise XAssertion, st1) end
                else ralts m (pos st0) start_tok false (m_alts m) [] st1))).
@@ -322,7 +325,7 @@ Proof.
         try solve [unfold post; cbn; tauto].
       destruct H as [HI2 [H1 H2]]. split; cbn.
       + apply inv_restore; exact HI2.
-      + destruct (m_without_invalid m); cbn; rewrite <- Hp0; auto.
+      + rewrite truthy_loop_ret. destruct (m_without_invalid m); cbn; rewrite <- Hp0; auto.
     - pose proof (run_alts_post m (pos st0) start_tok (m_alts m) Hwa [] st1 HI1 ltac:(lia)) as H. cbn zeta in H.
       destruct (ralts m (pos st0) start_tok false (m_alts m) [] st1) as [[v| |] st2]; cbn in *;
         try solve [unfold post; cbn; tauto].
